@@ -163,6 +163,15 @@ def build(ast, ctx, mux=True):
             # the operator's own mutable state in streaming mode).  Python only: no Coq model of distogram.
             ops.append(rs.math.dist.update(bin_count=n[1], reduce=bool(n[2])))
             ops.append(rs.ops.map(lambda d: ([list(b) for b in d.bins], d.min, d.max)))
+        elif k == 'dist_describe':
+            # rs.math.dist.describe (the in-library user of tee_map) over the streaming update; Python only
+            ops.append(rs.math.dist.update(bin_count=n[1], reduce=False))
+            ops.append(rs.math.dist.describe(quantiles=list(n[2])))
+            ops.append(rs.ops.map(lambda t: tuple(t)))
+        elif k == 'dist_metric':
+            ops.append(rs.math.dist.update(bin_count=n[1], reduce=False))
+            ops.append({'min': rs.math.dist.min, 'max': rs.math.dist.max, 'mean': rs.math.dist.mean,
+                        'stddev': rs.math.dist.stddev}[n[2]]() if n[2] != 'quantile' else rs.math.dist.quantile(n[3]))
         elif k == 'batch':
             ops.append(rs.data.batch(n[1]))
         elif k == 'duc':
